@@ -321,7 +321,20 @@ def _check_handler_guards(run, world, folder, mod, c):
     from ..inline import acopy
     from .. import astq
     P = c.qname + "._process_byte"
-    fn = normalise(c.methods["_process_byte"][1], world, SER, c,
+    # dispatch through a table of bound methods is the if-chain first
+    # (aliases of the enumeration written out, the lookup expanded), then
+    # the handlers are written out in place
+    fn0 = normalise(c.methods["_process_byte"][1], world, SER, c,
+                    inline=False, aliases=True)
+    if any(isinstance(n, ast.Attribute) and n.attr == "get"
+           for n in ast.walk(fn0)):
+        from ..unroll import expand_table_lookups, class_table_resolver
+        fx = acopy(fn0)
+        rt_, nn_ = class_table_resolver(world, c, SER)
+        if expand_table_lookups(fx, rt_, nn_):
+            ast.fix_missing_locations(fx)
+            fn0 = fx
+    fn = normalise(fn0, world, SER, c,
                    primitives=("reset", "_process_byte", "data_received"),
                    aliases="params")
     # a local bound once to <enum>(self._buffer[1]) is the message type
